@@ -150,6 +150,8 @@ class World:
         self.on_quiescent = None     # callable() -> True if it injected something that may wake a thread
         self.on_main_line = None     # callable() run at traced line boundaries of the main thread
         self.main_waited = False     # the clock advanced while the main thread was blocked
+        self.at_line = 0             # line of curtsies/input.py at the current traced yield point (0: a seam call)
+        self.preempt_sites = set()   # (line of input.py, pre-empted thread is a trigger thread) where a switch happened
         self.probes = {}
         self.faults = {}
 
@@ -210,11 +212,12 @@ class World:
         self.now += self.time_cost
         return self.now
 
-    def line_point(self):
+    def line_point(self, lineno=0):
         """a traced line boundary in curtsies/input.py: a pre-emption point and, for the main
         thread, a point where handlers that return normally may run"""
         if self.aborting:
             return
+        self.at_line = lineno
         if self.current is self.main and self.on_main_line is not None:
             self.on_main_line()
         self.yield_point()
@@ -222,7 +225,7 @@ class World:
     def make_tracer(self, filename):
         def local(frame, event, arg):
             if event == "line":
-                self.line_point()
+                self.line_point(frame.f_lineno)
             return local
 
         def tracer(frame, event, arg):
@@ -245,8 +248,11 @@ class World:
         idx = self.sched.at_yield(self.yields, cur.idx, others)
         if idx is not None:
             self.fault("preempt")
+            if self.at_line:
+                self.preempt_sites.add((self.at_line, cur.idx != 0))
             cur.state = "runnable"
             self._switch(self.threads[idx])
+        self.at_line = 0
 
     def _can_run(self, t):
         if t.state == "runnable":
